@@ -9,6 +9,7 @@ import numpy as np
 from pyrex.signals import Signal, FunctionSignal
 from vlib.core import Divergence
 
+TINY = 1e-12
 GRIDS = [(1.0, 0.0), (0.5, -7.0), (1e-10, 3e-6), (1.25e-9, -4e-8), (1.0, 1e6), (2.0, 1.0), (1e-9 / 3, 0.0), (1.2345678e-10, 5e-9)]
 
 
@@ -29,6 +30,18 @@ def response(h, dt, variant):
             if np.ndim(f) != 0:
                 raise TypeError('scalar frequencies only')
             return complex(H(f))
+    elif variant == 'table':
+        cache = {}
+
+        def fn(f):     # a tabulated response: the same stored complex array is handed out for the same frequencies
+            f = np.asarray(f, dtype=float)
+            key = (f.shape, float(f.flat[0]) if f.size else 0.0, float(f.flat[-1]) if f.size else 0.0, float(np.sum(f)))
+            if key not in cache:
+                cache[key] = np.asarray(H(f), dtype=np.complex128)
+                cache[key + ('check',)] = cache[key].copy()
+            if not np.array_equal(cache[key], cache[key + ('check',)]):
+                raise AssertionError('the filter modified the array its response function handed out')
+            return cache[key]
     elif variant == 'narrow':
         def fn(f):     # scalar-only, and every value returned in the narrowest Python type that holds it (int at DC, float where real)
             if np.ndim(f) != 0:
@@ -67,6 +80,8 @@ class FilterDriver:
         for dt, t0 in GRIDS:
             t = t0 + np.arange(n) * dt
             self.sets.append((dt, [Signal(t, [float(x) for x in st[k]]) for k in ('a', 'b', 'c')]))
+        # the first signal again, scaled by 1e-12 (a field in V/m is of that order): filtering is homogeneous at every scale
+        self.tiny = [(dt, Signal(t0 + np.arange(n) * dt, [float(x) * TINY for x in st['a']])) for dt, t0 in GRIDS[:3]]
         self.comp = {0: 1.0}
         self.orig = {k: [float(x) for x in st[k]] for k in 'abc'}
         # function-backed replicas on the first two grids: fc is a genuine sum fa + K*fb whose right operand is kept
@@ -106,6 +121,16 @@ class FilterDriver:
                                      list(want), list(got))
                 if not np.array_equal(s.times, times_before):
                     raise Divergence('times after filtering', list(times_before), list(s.times))
+        for dt, s in self.tiny:
+            s.filter_frequencies(response(h, dt, variant), force_real=fr)
+            want = np.array([float(x) for x in st['a']]) * TINY
+            got = np.asarray(s.values, dtype=float)
+            scale = (max(1.0, np.max(np.abs(want)) / TINY) * len(want) * sum(abs(g) for _, g in h) + 1) * TINY
+            if len(got) != len(want) or not np.allclose(got, want, rtol=0, atol=1e-9 * scale):
+                if last['wraps'] and np.allclose(got, self.dropped(h, self.prev['a']) * TINY, rtol=0, atol=1e-9 * scale):
+                    continue
+                raise Divergence('signal a scaled by %g after %s response %s force_real=%s on grid dt=%g' % (TINY, variant, list(h), fr, dt),
+                                 list(want), list(got))
         # function-backed signals pass ONCE through the product of all their filters (C06): the expectation is the
         # original samples convolved with the composite kernel, as long as that stays within the zero padding
         comp = {}
